@@ -18,7 +18,7 @@ RULE = ("sess: generated POP3 dialogues (0-8 messages, hostile message sources i
         "line ends, split and pipelined chunks, any order of USER/PASS/APOP, CAPA, QUIT or EOF or unterminated last line, idle timeout, "
         "read error, write failure, reconnects on the same server) interleaved with deliveries/removals/purges by others, mailbox-cap evictions and - memory store with maxkb - size-limit evictions caused by deliveries of 90 B .. 140 KB to any mailbox, "
         " alternating mem and file store; plus an enumeration of all pairs of transaction commands on a 2-message mailbox and a "
-        "regression corpus; bytes: raw client byte streams (valid dialogues cut at every byte; garbage with LF/CR/NUL/8-bit/the ToUpper runes over-represented; lines of 5-75 KB) run by Coq's run_stream itself; net: scripted connections (a pause longer than the idle timeout at every byte offset of valid dialogues and at random offsets of dialogues and garbage; endings EOF / silence / read error) run by Coq's run_net; tls: one to three connections to ONE server with STLS configured (or not), real TLS client (proper handshake or plaintext instead of a ClientHello), commands pipelined behind STLS, CAPA before/after, run by Coq's tsessions. distinct = distinct input line; non-trivial = the session logs in and issues at least one further command line.")
+        "regression corpus; bytes: raw client byte streams (valid dialogues cut at every byte; garbage with LF/CR/NUL/8-bit/the ToUpper runes over-represented; lines of 5-75 KB) run by Coq's run_stream itself; net: scripted connections (a pause longer than the idle timeout at every byte offset of valid dialogues and at random offsets of dialogues and garbage; endings EOF / silence / read error) run by Coq's run_net; tls: one to three connections to ONE server with STLS configured (or not), real TLS client (proper handshake or plaintext instead of a ClientHello), commands pipelined behind STLS, CAPA before/after, run by Coq's tsessions; overlap: up to four connections open at the same time on one server (two logins to the same mailbox, a third elsewhere, interleaved commands), every command owed a reply within 5 s. distinct = distinct input line; non-trivial = the session logs in and issues at least one further command line.")
 TRUSTED = ["command words are compared after Go's strings.ToUpper: modelled for ASCII plus U+0131/U+017F (the only runes whose upper case is ASCII)",
            "the store abstraction of Model/Pop3.v is proved to be C07's StoreSpec read through abs (pop3_over_storespec, storespec_*: for every cap and size limit of StoreSpec), and StoreSpec is what C07 proves the store models refine (pop3_over_store_models: the memory-store model for every cap and size limit, the file-store model only without a size limit, c_max = 0, and under C07's environment hypothesis file_fresh); what stays modelled rather than proved is the one difference between the back-ends that StoreSpec does not speak about: Source() of a message object whose message has been removed fails on the file store and still succeeds on the mem store (sampled by the correspondence run)"]
 ASSUMPTIONS = ["the harness's scripted net.Conn hands the server one line per Read and never blocks writes; deadlines are not exercised",
@@ -34,6 +34,8 @@ def _events(ins):
 
 
 def nontrivial(kind, ins, outs):
+    if kind == "overlap":
+        return len(outs) >= 4
     if kind == "tls":
         return any(o.endswith("C1") or o.endswith("C0") for o in outs) or len(outs) > 4
     if kind in ("bytes", "net"):
@@ -58,6 +60,12 @@ def shrink_candidates(inp):
                 cand = h[:2 * i] + h[2 * (i + step):]
                 yield " ".join(parts[:3] + [cand or "-"])
             step //= 2
+        return
+    if parts[0] == "overlap" and len(parts) == 4:
+        st = parts[3].split(",")
+        for j in range(len(st) - 1, -1, -1):
+            if len(st) > 1:
+                yield " ".join(parts[:3] + [",".join(st[:j] + st[j + 1:])])
         return
     if parts[0] == "tls" and len(parts) == 4:
         ss = parts[3].split(";")
